@@ -424,14 +424,20 @@ def _pick_completion(c: Controller, kind: str, return_when: str, recs: List[Task
         c.complete(already)
         return already
     if return_when == _cf.FIRST_COMPLETED:
-        opts = subsets(len(recs))
-        chosen = [recs[i] for i in opts[c.choose("done_" + kind, len(opts))]]
+        # only a node that is actually running can finish: a submission still queued behind a full pool cannot
+        live = [r for r in recs if r.entered.is_set()] or recs
+        opts = subsets(len(live))
+        chosen = [live[i] for i in opts[c.choose("done_" + kind, len(opts))]]
         c.complete(chosen)
     elif return_when == _cf.ALL_COMPLETED:
-        # observed all at once by the scheduler; completed one by one (lowest id first) so that the
-        # monitors can evaluate the blocking predicate after every single completion (C08)
+        # observed all at once by the scheduler; completed one by one, in EVERY order (a choice), so that the monitors can
+        # evaluate the blocking predicate after every single completion (C08)
         chosen = recs
-        for r in recs:
+        todo = list(recs)
+        while todo:
+            live = [r for r in todo if r.entered.is_set()] or todo
+            r = live[c.choose("done_all_" + kind, len(live))]
+            todo.remove(r)
             c.complete([r])
             c.ev("partial", kind, r.id)
     else:  # FIRST_EXCEPTION is not used by tawazi
@@ -557,9 +563,13 @@ class _AsyncioProxy(types.ModuleType):
         return getattr(_real_asyncio, name)
 
 
-def hooked_max(iterable, *, key=None, default=None):
+def hooked_max(*args, key=None, **kw):
     c = CTL
-    items = list(iterable)
+    if len(args) != 1 or key is None:
+        # max(a, b, ...) or a plain max over numbers: not the scheduler's candidate choice
+        return _builtin_max(*args, **({"key": key} if key is not None else {}), **kw)
+    items = list(args[0])
+    default = kw.get("default")
     if c is None or not items:
         return _builtin_max(items, key=key) if items else default
     c.hook_hits["max"] += 1
